@@ -14,6 +14,11 @@
 // string, Size() must be the number of bytes the reference decoder consumed,
 // and the value found at offset Size() must be the appended one.
 //
+// Family "history" (history.go): every sequence of at most D Set / Get /
+// nested-Set operations over a 3-key alphabet on an Object, an EcmaArray and a
+// StrictArray, made with the constructor or obtained by decoding, compared
+// with an ordered-map model of the value tree the history denotes.
+//
 // Violation keys are "<family>/<clause>/<feature>" where the feature is found
 // by neutralising one alphabet element at a time (non-empty strict arrays ->
 // null, repeated keys renamed, count hints made honest, ...) until the case
@@ -356,7 +361,7 @@ func run(c *hl.Ctx) {
 		"observed by the independent AMF0 decoder. Family bytes: reference encodings of ALL wire-level trees with <= M nodes (keys with repetition, empty key, " +
 		"ECMA count hints n/0/n+1/n-1/0xFFFFFFFF) x suffix {none, stray byte, another value}; plus boolean body bytes 0..255. " +
 		"Non-trivial = distinct case (hash of family + encoding) that the library marshalled/decoded successfully and that passed every clause; " +
-		"strings the library rejects are counted separately (bytes_rejected_by_library) and are not non-trivial.")
+		"strings the library rejects are counted separately (bytes_rejected_by_library) and are not non-trivial." + historyRule)
 	c.Assume("the reference AMF0 codec (engine/ref/amf0ref, written from amf0_spec_121207) is correct; it is cross-checked against itself on every byte string",
 		"string contents are fixed per length class (0, 1, 2, 65535 bytes); number alphabet is the listed 11 bit patterns",
 		"strict-array elements are given the keys the API demands by a fixed rotation over {\"0\",\"\",\"b\",\"ab\"} (decimal indices beyond 4 elements)")
@@ -386,6 +391,8 @@ func run(c *hl.Ctx) {
 	if c.Mine(idx) {
 		checkBooleanBytes(c)
 	}
+	// family history (history.go): small, so it runs first
+	idx = runHistory(c, idx)
 	// simplest first across profiles: interleave by node count
 	maxN := 0
 	for _, p := range api {
@@ -504,6 +511,12 @@ func replay(c *hl.Ctx, raw json.RawMessage) {
 		}
 		b, first := cs.wireCase.bytes()
 		checkBytes(c, &cs.wireCase, b, first)
+	case "history":
+		var cs histCase
+		if err := json.Unmarshal(raw, &cs); err != nil {
+			panic(err)
+		}
+		replayHistory(c, &cs)
 	default:
 		checkBooleanBytes(c)
 	}
